@@ -51,7 +51,12 @@ def render(tpl, rng=None):
     if t == "syntax":
         return SYNTAX[tpl["i"] % len(SYNTAX)]
     if t == "loop":
-        return ["while(true){}", "for(;;){var q_ = 1}", "while(true){Env.tick()}", "do { Env.tick(); } while (1 < 2)"][tpl["variant"] % 4]
+        # variants 4, 5: the body finishes, but turning the value of the last expression into the result still runs script code
+        # (an enumerable accessor property that never returns): the limit covers the whole call
+        return ["while(true){}", "for(;;){var q_ = 1}", "while(true){Env.tick()}", "do { Env.tick(); } while (1 < 2)",
+                "var o_ = {}; Object.defineProperty(o_, 'p', {enumerable: true, get: function(){ while(true){} }}); o_",
+                "[1, (function(){ var o_ = {}; Object.defineProperty(o_, 'p', {enumerable: true, get: function(){ for(;;){var q_ = 1} }}); return o_ })()]",
+                ][tpl["variant"] % 6]
     if t == "busy":
         return "var s_ = 0; for (var i_ = 0; i_ < %d; i_++) { s_ = s_ + i_ }; [s_, %s]" % (tpl["n"], js(tpl["last"]))
     if t == "sleepThen":
@@ -62,7 +67,7 @@ def render(tpl, rng=None):
 
 
 def loop_ticks(tpl):
-    return tpl["t"] == "loop" and tpl["variant"] % 4 >= 2
+    return tpl["t"] == "loop" and tpl["variant"] % 6 in (2, 3)
 
 
 # ------------------------------------------------------------------------------------------- bindings
